@@ -9,7 +9,7 @@ use ironcalc_base::Model;
 use serde_json::{json, Value};
 use std::io::{BufRead, Write};
 
-pub const VOCAB: [&str; 139] = [
+pub const VOCAB: [&str; 172] = [
     // booleans in the five languages, both cases
     "TRUE", "FALSE", "true", "False", "VERDADERO", "FALSO", "VRAI", "FAUX", "WAHR", "FALSCH", "VERO", "falso",
     // errors (English spellings; localized ones are produced by formulas below)
@@ -23,6 +23,7 @@ pub const VOCAB: [&str; 139] = [
     // look-alike strings
     "'123", "'TRUE", "'=A1", "'#N/A", "'2024-01-15", "'50%", "''", "'", "' x", " 12", "12 ", "1 2", "1e", "e1", "--1", "+-1", "1..2", "1,2,3", "TRUE ", " TRUE", "N/A", "#REF", "#", "@", "@A1",
     // formulas
+    "=2^(3^2)", "=(2^3)^2", "=2-(3-4)", "=2-(3+4)", "=2/(3/4)", "=2/(3*4)", "=(1+2)*3", "=-(1+2)", "=-2^2", "=(-2)^2", "=2^-2", "=(1+2)%", "=1+2%", "=(1=2)=3", "=1=(2=3)", "=\"a\"&(1+2)", "=(\"a\"&1)+2", "=1+(2&3)", "=-(-1)", "=--1", "=+1", "=1-(-1)", "=(A1:A2)", "=SUM((A1,B1))", "=IF(1,(2),3)", "=1.50", "=1e3+1", "=.5+1", "=1E-5", "=2*(3+4)^2", "=(2*3)^(1/2)", "=A1:A2*2", "=2^3^2",
     "=1+1", "=A1", "=SUM(A1:B2)", "=\"a\"", "=TRUE", "=1/0", "={1,2}", "=", "==", "=+", "=1+", "=NOW(", "=\"unterminated", "=IF(1,2,3)", "=1=1", "=-A1", "=$A$1+A$1", "=Sheet1!A1", "='Sheet1'!A1", "=NoSuchName", "=1%", "=1,5", "=1.5", "=SUM(1;2)", "=SUM(1,2)",
 ];
 
